@@ -252,6 +252,17 @@ impl<'a, 'tcx> BodyCx<'a, 'tcx> {
             }
             _ => {}
         }
+        if let Const::Val(cv, _) = c {
+            if let ty::Ref(_, inner, _) = ty.kind() {
+                if inner.is_str() {
+                    if let Some(bytes) = cv.try_get_slice_bytes_for_diagnostics(tcx) {
+                        if bytes.len() <= 256 {
+                            let _ = write!(o, ",\"str\":{}", js(&String::from_utf8_lossy(bytes)));
+                        }
+                    }
+                }
+            }
+        }
         if ty.is_integral() || ty.is_bool() || ty.is_char() {
             if let Some(si) = c.try_to_scalar_int() {
                 let size = si.size();
@@ -798,6 +809,9 @@ mod fmtscan {
                     Some(format!("impl {}", t))
                 }
                 ast::ItemKind::Trait(t) => Some(t.ident.name.to_string()),
+                ast::ItemKind::Struct(ident, ..) | ast::ItemKind::Enum(ident, ..) | ast::ItemKind::Union(ident, ..) => {
+                    Some(ident.name.to_string())
+                }
                 _ => None,
             };
             if let Some(n) = &name {
@@ -820,6 +834,24 @@ mod fmtscan {
             if name.is_some() {
                 self.stack.pop();
             }
+        }
+        fn visit_field_def(&mut self, f: &'ast ast::FieldDef) {
+            for a in f.attrs.iter() {
+                if let ast::AttrKind::Normal(n) = &a.kind {
+                    let path: Vec<String> = n.item.path.segments.iter().map(|s| s.ident.name.to_string()).collect();
+                    if path.first().map(|s| s == "serde").unwrap_or(false) {
+                        let txt = self.sm.span_to_snippet(a.span).unwrap_or_default();
+                        let fname = f.ident.map(|i| i.name.to_string()).unwrap_or_default();
+                        let lo = self.sm.lookup_char_pos(a.span.lo());
+                        let mut s = String::new();
+                        s.push_str("{\"k\":\"fieldattr\",\"path\":");
+                        s.push_str(&super::js(&self.stack.join("::")));
+                        s.push_str(&format!(",\"field\":{},\"attr\":{},\"line\":{}}}", super::js(&fname), super::js(&txt), lo.line));
+                        self.out.push(s);
+                    }
+                }
+            }
+            visit::walk_field_def(self, f);
         }
         fn visit_expr(&mut self, e: &'ast ast::Expr) {
             if let ast::ExprKind::FormatArgs(fa) = &e.kind {
